@@ -35,6 +35,8 @@ def showPrim : Prim → String
   | .tmp .plain => "t"
   | .tmp .create => "c"
   | .tmp .reopen => "r"
+  | .tmp .guarded => "p"
+  | .tmp .guardedClose => "q"
   | .move _ => "move"
   | .moveBroken _ => "move!"
 
@@ -58,10 +60,25 @@ def showSess (s : Session) : String :=
 def parseKind (s : String) : Option Kind :=
   if s = "dir" then some .dir else if s = "zip" then some .zip else none
 
-def parsePre (s : String) : List TmpKind :=
-  s.toList.filterMap (fun c =>
-    if c = 't' then some TmpKind.plain else if c = 'c' then some .create
-    else if c = 'r' then some .reopen else none)
+def parseTmp (c : Char) : Option TmpKind :=
+  if c = 't' then some TmpKind.plain else if c = 'c' then some .create
+  else if c = 'r' then some .reopen else if c = 'p' then some .guarded
+  else if c = 'q' then some .guardedClose else none
+
+/-- zip format: the operations before the move -/
+def parsePre (s : String) : List TmpKind := s.toList.filterMap parseTmp
+
+/-- directory format: the operations after `make_root` but the last (`w`: below the path) -/
+def parseBody (s : String) : List (Option TmpKind) :=
+  s.toList.filterMap (fun c => if c = 'w' then some none else (parseTmp c).map some)
+
+/-- `os1` / `osP` / `perm1` / `permP`: error class, transient or persistent -/
+def parsePolicy (s : String) : Option Policy :=
+  if s = "os1" then some { exc := .os, persist := false }
+  else if s = "osP" then some { exc := .os, persist := true }
+  else if s = "perm1" then some { exc := .perm, persist := false }
+  else if s = "permP" then some { exc := .perm, persist := true }
+  else none
 
 def parseLoadFail (s : String) : Option LoadFail :=
   if s = "nowhere" then some .nowhere else if s = "beforeNew" then some .beforeNew
@@ -76,19 +93,19 @@ def parseSavePhase (s : String) : Option SavePhase :=
 def step (st : St) (line : String) : St × String :=
   match (line.splitOn " ").filter (· ≠ "") with
   | ["reset"] => ({}, "ok")
-  | ["save", b, kind, g, nrm, n1, n2, k] =>
-    match parseKind kind, g.toNat?, nrm.toNat?, n2.toNat? with
-    | some kd, some g, some nrm, some n2 =>
+  | ["save", b, kind, g, nrm, n1, n2, k, pol] =>
+    match parseKind kind, g.toNat?, nrm.toNat?, n2.toNat?, parsePolicy pol with
+    | some kd, some g, some nrm, some n2, some pol =>
       let mb := if b = "B" then maxOn else 0
-      let sv : Save := { kind := kd, g := g, nrm := nrm, n1 := n1.toNat?.getD 0,
-                         pre := parsePre n1, n2 := n2 }
+      let sv : Save := { kind := kd, g := g, nrm := nrm, body := parseBody n1,
+                         pre := parsePre n1, n2 := n2, pol := pol }
       let pl := plan mb sv st.fs
       let kk := match k.toNat? with | some k => k | none => pl.length
       let r := save mb sv kk st.fs
       ({ st with fs := r.1, prev := st.fs },
         (if r.2 then "ok" else "fail") ++ s!" len={pl.length} plan=" ++
           ",".intercalate (compress (pl.map showPrim)) ++ " | " ++ showFs r.1)
-    | _, _, _, _ => (st, "bad-op")
+    | _, _, _, _, _ => (st, "bad-op")
   | ["back"] => ({ st with fs := st.prev }, "ok")
   | ["obs"] => (st, showFs st.fs)
   | ["newmodel", n] =>
